@@ -256,6 +256,10 @@ pub mod ffi {
         pub fn greet(&self, s: &str, f: impl Fn(u32) -> u32) -> u32 {
             f(s.len() as u32)
         }
+        /// the same with the callback declared *before* the validated string
+        pub fn greet_after(&self, f: impl Fn(u32) -> u32, s: &str) -> u32 {
+            f(s.len() as u32)
+        }
         pub fn hold(&mut self, f: impl Fn(u32) -> u32 + 'static) {
             self.held_mut = None;
             self.held = Some(Box::new(f));
